@@ -13,7 +13,7 @@ least one error and produce no code; the program without the injected statement 
 from ..common import *
 from ..typedprog import *
 
-LEVEL = "model_checked"
+LEVEL = "model_checking"
 
 
 def run(ctx):
